@@ -395,6 +395,9 @@ func (v *Verifier) runPartition(pkg *ssa.Package, fn *ssa.Function, c *Contract,
 	for _, g := range c.Ghosts {
 		st.ghosts[g.Name] = se.evalTerm(g.E)
 	}
+	for _, l := range c.EntryLemmas {
+		fr.lemma(st, se, l, "entry")
+	}
 	// frame
 	v.frameOn = true
 	for _, lv := range c.Modifies {
@@ -453,6 +456,9 @@ func (v *Verifier) runPartition(pkg *ssa.Package, fn *ssa.Function, c *Contract,
 		}
 	}
 	pe := &SpecEnv{fr: fr, st: fin, old: fr.entry, vars: vars, pkg: pkg, fn: fn}
+	for _, g := range c.GhostFinal {
+		fin.ghosts[g.Name] = pe.evalTerm(g.E)
+	}
 	for _, e := range c.Ensures {
 		g := pe.evalBool(e.E)
 		fr.oblige(fin, "post:"+e.Name, g, e.E.Src)
